@@ -55,6 +55,8 @@ def gen_window_op(rng, timed):
           'pre': rng.choice(PRES)}
     if agg in ('var', 'std'):
         op['ddof'] = rng.choice([1, 1, 1, 0])
+    if agg not in ('value_counts', 'size') and rng.random() < 0.2:
+        op['wexpr'] = rng.choice(['neg', 'add', 'mul', 'rsub'])      # element-wise step on the Window object itself
     if rng.random() < 0.15 and agg != 'value_counts':
         op.update({'src': 'series', 'sel': None, 'selpos': 'before'})
         if op['pre'] is not None:
